@@ -407,3 +407,196 @@ func getenv(k, d string) string {
 	}
 	return d
 }
+
+
+// ---- writeconc: different workloads written concurrently by independent writers ----
+type preCall struct {
+	kind string
+	hdr  *mcap.Header
+	sch  *mcap.Schema
+	ch   *mcap.Channel
+	msg  *mcap.Message
+	att  *mcap.Attachment
+	frag [][]byte
+	fail bool
+	md   *mcap.Metadata
+}
+
+type preCase struct {
+	id    string
+	opts  func() *mcap.WriterOptions
+	calls []preCall
+	ref   string
+}
+
+func parsePre(c []string) *preCase {
+	pc := &preCase{id: strings.TrimPrefix(c[0], "case ")}
+	for _, line := range c[1:] {
+		f := strings.Fields(line)
+		switch f[0] {
+		case "wopts":
+			o := opt(f[1:])
+			pc.opts = func() *mcap.WriterOptions { return parseWopts(o) }
+		case "fault", "comp", "lib":
+		case "H":
+			pc.calls = append(pc.calls, preCall{kind: "H", hdr: &mcap.Header{Profile: string(unhx(f[1])), Library: string(unhx(f[2]))}})
+		case "S":
+			pc.calls = append(pc.calls, preCall{kind: "S", sch: &mcap.Schema{ID: uint16(u64(f[1])), Name: string(unhx(f[2])), Encoding: string(unhx(f[3])), Data: unhx(f[4])}})
+		case "C":
+			pc.calls = append(pc.calls, preCall{kind: "C", ch: &mcap.Channel{ID: uint16(u64(f[1])), SchemaID: uint16(u64(f[2])), Topic: string(unhx(f[3])), MessageEncoding: string(unhx(f[4])), Metadata: kvs(f[5])}})
+		case "M":
+			pc.calls = append(pc.calls, preCall{kind: "M", msg: &mcap.Message{ChannelID: uint16(u64(f[1])), Sequence: uint32(u64(f[2])), LogTime: u64(f[3]), PublishTime: u64(f[4]), Data: unhx(f[5])}})
+		case "A":
+			var frags [][]byte
+			if f[7] != "-" {
+				for _, h := range strings.Split(f[7], ",") {
+					frags = append(frags, unhx(h))
+				}
+			}
+			pc.calls = append(pc.calls, preCall{kind: "A", att: &mcap.Attachment{LogTime: u64(f[1]), CreateTime: u64(f[2]), Name: string(unhx(f[3])), MediaType: string(unhx(f[4])), DataSize: u64(f[5])}, frag: frags, fail: f[6] == "1"})
+		case "D":
+			pc.calls = append(pc.calls, preCall{kind: "D", md: &mcap.Metadata{Name: string(unhx(f[1])), Metadata: kvs(f[2])}})
+		case "X":
+			pc.calls = append(pc.calls, preCall{kind: "X"})
+		}
+	}
+	return pc
+}
+
+func (pc *preCase) run() string {
+	s := &sink{}
+	w, err := mcap.NewWriter(s, pc.opts())
+	if err != nil {
+		return "newerr"
+	}
+	for i := range pc.calls {
+		c := &pc.calls[i]
+		switch c.kind {
+		case "H":
+			_ = w.WriteHeader(c.hdr)
+		case "S":
+			_ = w.WriteSchema(c.sch)
+		case "C":
+			_ = w.WriteChannel(c.ch)
+		case "M":
+			_ = w.WriteMessage(c.msg)
+		case "A":
+			a := *c.att
+			a.Data = &fragReader{frags: append([][]byte(nil), c.frag...), fail: c.fail}
+			_ = w.WriteAttachment(&a)
+		case "D":
+			_ = w.WriteMetadata(c.md)
+		case "X":
+			_ = w.Close()
+		}
+	}
+	h := sha256.New()
+	var file []byte
+	for _, p := range s.writes {
+		var l [8]byte
+		binary.LittleEndian.PutUint64(l[:], uint64(len(p)))
+		h.Write(l[:])
+		h.Write(p)
+		file = append(file, p...)
+	}
+	if os.Getenv("VERIF_CONC_READ") == "1" {
+		h.Write([]byte(readBackHash(file)))
+	}
+	return hex.EncodeToString(h.Sum(nil))
+}
+
+// readBackHash reads a file with an independent lexer and an independent reader (default options: index when
+// usable) and hashes everything they return, errors included.
+func readBackHash(file []byte) string {
+	h := sha256.New()
+	lx, err := mcap.NewLexer(bytes.NewReader(file), &mcap.LexerOptions{ValidateChunkCRCs: true})
+	if err != nil {
+		fmt.Fprintf(h, "lexerr %v", err)
+	} else {
+		for i := 0; i < 1000000; i++ {
+			tt, rec, err := lx.Next(nil)
+			if err != nil {
+				fmt.Fprintf(h, "end %v", err)
+				break
+			}
+			fmt.Fprintf(h, "tok %d %d ", tt, len(rec))
+			h.Write(rec)
+		}
+	}
+	rd, err := mcap.NewReader(bytes.NewReader(file))
+	if err != nil {
+		fmt.Fprintf(h, "readerr %v", err)
+		return hex.EncodeToString(h.Sum(nil))
+	}
+	defer rd.Close()
+	it, err := rd.Messages()
+	if err != nil {
+		fmt.Fprintf(h, "msgerr %v", err)
+		return hex.EncodeToString(h.Sum(nil))
+	}
+	for i := 0; i < 1000000; i++ {
+		sc, ch, m, err := it.Next(nil)
+		if err != nil {
+			fmt.Fprintf(h, "end %v", err)
+			break
+		}
+		if sc != nil {
+			fmt.Fprintf(h, "s%d %s", sc.ID, sc.Name)
+		}
+		fmt.Fprintf(h, "c%d %s m%d %d %d ", ch.ID, ch.Topic, m.Sequence, m.LogTime, len(m.Data))
+		h.Write(m.Data)
+	}
+	return hex.EncodeToString(h.Sum(nil))
+}
+
+// runWriteConc: every case of the script is first written alone (reference), then VERIF_GOROUTINES goroutines
+// start together and each writes all cases VERIF_REPS times in its own rotation, so that independent
+// writers of different workloads overlap. Output per case: the reference hash and the number of runs whose
+// output differed from it.
+func runWriteConc(cases [][]string) {
+	reps := int(i64(getenv("VERIF_REPS", "3")))
+	gor := int(i64(getenv("VERIF_GOROUTINES", "16")))
+	var pcs []*preCase
+	for _, c := range cases {
+		pc := parsePre(c)
+		if pc.opts == nil {
+			continue
+		}
+		pc.ref = pc.run()
+		pcs = append(pcs, pc)
+	}
+	bad := make([]int64, len(pcs))
+	runs := make([]int64, len(pcs))
+	var mu sync.Mutex
+	var wg sync.WaitGroup
+	start := make(chan struct{})
+	for g := 0; g < gor; g++ {
+		wg.Add(1)
+		go func(g int) {
+			defer wg.Done()
+			<-start
+			lb := make([]int64, len(pcs))
+			lr := make([]int64, len(pcs))
+			for r := 0; r < reps; r++ {
+				for k := range pcs {
+					i := (k + g*7 + r*3) % len(pcs)
+					if pcs[i].run() != pcs[i].ref {
+						lb[i]++
+					}
+					lr[i]++
+				}
+			}
+			mu.Lock()
+			for i := range pcs {
+				bad[i] += lb[i]
+				runs[i] += lr[i]
+			}
+			mu.Unlock()
+		}(g)
+	}
+	close(start)
+	wg.Wait()
+	for i, pc := range pcs {
+		fmt.Fprintf(out, "case %s\nconc ref=%s runs=%d differing=%d\nend\n", pc.id, pc.ref, runs[i], bad[i])
+	}
+}
